@@ -2599,3 +2599,63 @@ def explicit_config_stream(start_id=52000):
             ops.append('eenc %d %d %s' % (e, j % 2, _hs([(b'n%d' % j, b'v' * 40, 0), (b'cookie', b'c%d' % j, 1), (b'n0', b'v' * 40, 0)])))
             ops.append('pipe %d 1 %d' % (e, e))
     return ops
+
+
+def _via_table(ops):
+    """the same operations with every decoder table-size assignment made on the table object itself"""
+    return [(o + (' ' if '#' in o else ' #') + 'via=table') if o.startswith('dsize ') else o for o in ops]
+
+
+def table_size_above_permitted_stream(start_id=53000):
+    """the table is raised (by the application, through the setter or on the table object) and the permitted maximum is
+    lowered below it afterwards: every block until the peer signals a size within the limit must be refused, whatever it
+    holds -- empty, update-less, indexed fields only"""
+    ops = []
+    d = start_id
+    for ann in ('', ' #via=table'):
+        for low in (4096, 100, 0):
+            d += 1
+            ops.append('dnew %d 100000' % d)
+            ops.append('dallow %d 8192' % d); ops.append('dsize %d 8192%s' % (d, ann))
+            ops.append('ddec %d 1 %s' % (d, hx(b'\x40\x01a\x01b')))
+            ops.append('dallow %d %d' % (d, low))
+            for blk in (b'', b'\x82', b'\xbe', b'\x40\x01c\x01d', int_octets(low + 1, 5, 0x20) + b'\x82'):
+                ops.append('ddec %d 1 %s' % (d, hx(blk)))
+            ops.append('ddec %d 1 %s' % (d, hx(int_octets(low, 5, 0x20) + b'\x82')))
+            ops.append('ddec %d 1 %s' % (d, hx(b'\x82')))
+    return ops
+
+
+def _huff_kinds(ops):
+    """the same encoder operations with the `huffman` switch handed over as a non-bool object of the same truth value
+    ('on' / '', 1 / 0, [0] / [], True / None)"""
+    out = []
+    j = 0
+    for o in ops:
+        if o.split(' ', 1)[0] in ('eenc', 'eapi', 'eev'):
+            out.append(o + (' ' if '#' in o else ' #') + 'huffkind=' + ('str', 'int', 'list', 'none')[j % 4]); j += 1
+        else:
+            out.append(o)
+    return out
+
+
+def decoder_copies_keep_config_stream(start_id=54000):
+    """a Decoder configured away from the defaults (list limit, permitted table size, table size), with entries in its table,
+    is copied -- copy.copy, copy.deepcopy, pickle -- in the middle of the connection and the COPY goes on: limits and table must
+    be the configured ones (a copy that falls back to defaults shows at the first block between the two limits)"""
+    ops = []
+    d = start_id
+    big = bytes([0x40]) + int_octets(1, 7) + b'k' + int_octets(200, 7) + b'v' * 200          # 233 octets
+    for kind in ('shallow', 'deep', 'pickle'):
+        for limit in (1000, 100000, 300):
+            d += 2
+            a, b = d, d + 1
+            ops.append('dnew %d %d' % (a, limit)); ops.append('dallow %d 8192' % a)
+            ops.append('ddec %d 1 %s' % (a, hx(b'\x3f\xe1\x3f' + (big if limit >= 300 else b''))))
+            ops.append('dcopy %d %d %s' % (b, a, kind))
+            n_over = limit // 233 + 1
+            ops.append('ddec %d 1 %s' % (b, hx(b'\xbe' * max(n_over - 1, 1))))
+            ops.append('ddec %d 0 %s' % (b, hx(b'\xbe' * n_over)))
+            ops.append('ddec %d 1 %s' % (b, hx(b'\x3f\xe2\x3f\x82')))           # 8193 > permitted 8192
+            ops.append('ddec %d 1 %s' % (b, hx(b'\xbe' * 300)))                    # 300 x 233 = 69900: over 65536 too
+    return ops
